@@ -136,6 +136,42 @@ PROPS["C20"] = {
     "assumptions": [],
 }
 
+PROPS["C10"] = {
+    "level": "proof",
+    "contracts": [
+        ("contracts.unmarshal", "xdis.unmarshal:_VersionIndependentUnmarshaller.t_int32"),
+        ("contracts.unmarshal", "xdis.unmarshal:_VersionIndependentUnmarshaller.t_int64"),
+        ("contracts.unmarshal", "xdis.unmarshal:_VersionIndependentUnmarshaller.t_long"),
+        ("contracts.unmarshal", "xdis.unmarshal:_VersionIndependentUnmarshaller.t_string"),
+        ("contracts.unmarshal", "xdis.unmarshal:_VersionIndependentUnmarshaller.t_interned"),
+        ("contracts.unmarshal", "xdis.unmarshal:_VersionIndependentUnmarshaller.t_ASCII"),
+        ("contracts.unmarshal", "xdis.unmarshal:_VersionIndependentUnmarshaller.t_ASCII_interned"),
+        ("contracts.unmarshal", "xdis.unmarshal:_VersionIndependentUnmarshaller.t_short_ASCII"),
+        ("contracts.unmarshal", "xdis.unmarshal:_VersionIndependentUnmarshaller.t_short_ASCII_interned"),
+        ("contracts.unmarshal", "xdis.unmarshal:_VersionIndependentUnmarshaller.t_unicode"),
+        ("contracts.unmarshal", "xdis.unmarshal:_VersionIndependentUnmarshaller.t_object_reference"),
+        ("contracts.unmarshal", "xdis.unmarshal:_VersionIndependentUnmarshaller.t_python2_string_reference"),
+        ("contracts.unmarshal", "xdis.unmarshal:_VersionIndependentUnmarshaller.t_small_tuple"),
+        ("contracts.unmarshal", "xdis.unmarshal:_VersionIndependentUnmarshaller.t_tuple"),
+        ("contracts.unmarshal", "xdis.unmarshal:_VersionIndependentUnmarshaller.t_frozenset"),
+        ("contracts.unmarshal", "xdis.unmarshal:_VersionIndependentUnmarshaller.t_set"),
+    ],
+    "ground": [("ground.c01", "check")],
+    "bounded": [("ground.unmarshal_diff", "check")],
+    "assumptions": [],
+}
+
+PROPS["C01"] = {
+    "level": "proof",
+    "contracts": [
+        ("contracts.unmarshal_dispatch", "xdis.unmarshal:_VersionIndependentUnmarshaller.r_object"),
+        ("contracts.unmarshal_dispatch", "xdis.unmarshal:_VersionIndependentUnmarshaller.t_code"),
+    ] + PROPS["C10"]["contracts"],
+    "ground": [("ground.c01", "check")],
+    "bounded": [("ground.unmarshal_diff", "check")],
+    "assumptions": [],
+}
+
 # ---------------------------------------------------------------------------------------------
 # level texts / notes (MANIFEST)
 _T = {
@@ -157,6 +193,10 @@ _T = {
          "closed forms of CPython's C function selected from a template family by agreement with the interpreters on sampled operands; versions without an interpreter are not covered."),
  "C17": ("_parse_varint and parse_exception_table are proved for all byte strings against the exception-table format (big-endian 6-bit varints, 4 per entry), including termination and StopIteration exactly on truncated input.",
          "location-table (co_positions/co_lines) walkers: bounded differential only so far."),
+ "C01": ("The pure-Python unmarshaller is proved, for every input byte string, to follow the structure marshal.c defines: r_object dispatches each type code (with FLAG_REF and bytes_for_s) to the matching reader; t_code reads the fields of a code object in the order, width and signedness of each of 19 bytecode-version classes (1.0 ... 3.13) and passes each to the matching field of the portable code object, incl. the 3.11+ localsplus split and the reference slot reserved before the fields; the value readers are those of C10. Value contents and the list/dict readers are compared with the real marshal only by the bounded differential.",
+         "sub-objects are abstract (OBJ/END/NREF: modular induction, termination not proved here); format transcribed from marshal.c knowledge in spec/marshal_fmt.py and validated behaviourally against the marshal of 9 interpreters; 2.0 (magic 50823) layout not shipped: no oracle can arbitrate whether 2.0 code objects have free/cell variables; PyPy/Graal layouts not covered; bounded: 3.11+ localsplus with two names."),
+ "C10": ("Each value reader of the unmarshaller (int32, int64, long digits, the seven length-prefixed string kinds, unicode, back references, interned-string references, small/large tuples, sets, frozensets) is proved, for all inputs, to read the field widths/signs the format defines, to consume exactly its encoding, to read its children in order with bytes_for_s passed on, and to keep the reference-table discipline (slot index = references recorded before, reserved before the children, filled with the finished object).",
+         "list/dict/float-text/complex readers, UTF-8 decoding and the equality of decoded *contents* are covered by the bounded differential against the real marshal (host marshal values, hand-assembled encodings, code objects of 9 interpreters)."),
  "C20": ("The std wrappers are proved to be plumbing into verified code: _StdApi.get_instructions / Bytecode.get_instructions invoke the stream driver exactly once with the API object's own opcode table, the code's own byte string and tables, the line starts computed for that code and line_offset = first_line - co_firstlineno; _StdApi.findlabels returns the CPython label set; the driver get_instructions_bytes is proved (3.6+ tables) to tile the code in words with CPython's globally folded operands and to pass the decoder's is_jump_target / starts_line (incl. the first_line shift) through; the decoder and label finders it relies on are proved per table.",
          "object coercion (functions, methods, generators, source strings -> code) and module-level tables are compared with the host's dis only by the bounded host differential; code objects with an exception table take the exception_entries path that is outside the driver's contract; dict(findlinestarts(..)) is an abstract map tied to its source sequence."),
  "C16": ("codeType2Portable, Code38/Code310/Code311.to_native and Code13.replace are proved, for each host 3.8-3.13 (attribute set and positional constructor order of types.CodeType taken from the real interpreters), to map every field to the same field (in particular the host's real line table and exception table), to choose the portable class of the host's version, and to leave the original object unchanged.",
